@@ -1,3 +1,74 @@
-import Toodee.Spec.Inv
+import Toodee.Spec.IterAbs
+import Toodee.Properties.C08
+/-
+  C10 — Cell iterators visit every cell once in row-major order.
+
+  `Cells`/`CellsMut` = `FlattenExact` over `Rows`/`RowsMut`.  A cursor `s` with `Flat.WF s k n` stands for the list
+  `s.abs k` of cell positions still to be visited.  Every operation returns what the ideal sequence returns, never panics
+  (in particular the `debug_assert!(n < tmp.len())` in `nth`/`nth_back` never fires) or hits `ub`, for every argument
+  `< 2^64`, in both build modes; the internal `loop`s terminate within 2 iterations (`fuel ≥ 2`).  `cells()` of an owned
+  array or view stands for all `num_cols*num_rows` cell positions in row-major order, each exactly once.
+-/
 namespace Toodee
+variable {α : Type}
+
+theorem C10_next (s : Flat) (k n : Nat) (h : s.WF k n) (fuel : Nat) (hf : 2 ≤ fuel) :
+    ∃ s' k', s.next fuel = .ok ((Seq.next (s.abs k)).1, s') ∧ s'.WF k' n ∧
+      s'.abs k' = (Seq.next (s.abs k)).2 := by
+  sorry
+
+theorem C10_next_back (m : Mode) (s : Flat) (k n : Nat) (h : s.WF k n) (fuel : Nat) (hf : 2 ≤ fuel) :
+    ∃ s' k', s.nextBack m fuel = .ok ((Seq.nextBack (s.abs k)).1, s') ∧ s'.WF k' n ∧
+      s'.abs k' = (Seq.nextBack (s.abs k)).2 := by
+  sorry
+
+theorem C10_nth (m : Mode) (s : Flat) (k n : Nat) (h : s.WF k n) (j : Nat) (hj : j < WORD) :
+    ∃ s' k', s.nth m j = .ok ((Seq.nth (s.abs k) j).1, s') ∧ s'.WF k' n ∧
+      s'.abs k' = (Seq.nth (s.abs k) j).2 := by
+  sorry
+
+theorem C10_nth_back (m : Mode) (s : Flat) (k n : Nat) (h : s.WF k n) (j : Nat) (hj : j < WORD) :
+    ∃ s' k', s.nthBack m j = .ok ((Seq.nthBack (s.abs k) j).1, s') ∧ s'.WF k' n ∧
+      s'.abs k' = (Seq.nthBack (s.abs k) j).2 := by
+  sorry
+
+/-- `len()` / `size_hint()` (and `count()`, which folds) -/
+theorem C10_len (m : Mode) (s : Flat) (k n : Nat) (h : s.WF k n) : s.sizeHint m = .ok (s.abs k).length := by
+  sorry
+
+theorem C10_last (m : Mode) (s : Flat) (k n : Nat) (h : s.WF k n) (fuel : Nat) (hf : 2 ≤ fuel) :
+    s.last m fuel = .ok (Seq.last (s.abs k)) := by
+  sorry
+
+theorem C10_fold (s : Flat) (k n : Nat) (h : s.WF k n) (fuel : Nat) (hf : k < fuel) :
+    s.collect fuel = .ok (s.abs k) := by
+  sorry
+
+theorem C10_rfold (m : Mode) (s : Flat) (k n : Nat) (h : s.WF k n) (fuel : Nat) (hf : k < fuel) :
+    s.collectBack m fuel = .ok (s.abs k).reverse := by
+  sorry
+
+/-- any interleaving of `next`, `next_back`, `nth`, `nth_back`, `len` -/
+theorem C10_word (m : Mode) (s : Flat) (k n : Nat) (h : s.WF k n) (fuel : Nat) (hf : 2 ≤ fuel)
+    (w : List Seq.Op) (hw : ∀ o ∈ w, o.small) :
+    ∃ s' k', s.run m fuel w = .ok ((Seq.run (s.abs k) w).1, s') ∧ s'.WF k' n ∧
+      s'.abs k' = (Seq.run (s.abs k) w).2 := by
+  sorry
+
+/-- `cells()` / `cells_mut()` / `IntoIterator` of an owned array: all positions `0 .. C*R` in order -/
+theorem C10_cells_owned (t : TD α) (h : t.Inv) :
+    (Flat.new t.rows).WF t.numRows t.data.length ∧
+    (Flat.new t.rows).abs t.numRows = List.range t.data.length ∧
+    (Flat.new t.rows).abs t.numRows =
+      ((List.range t.numRows).map fun r => (List.range t.numCols).map fun c => t.pos c r).flatten := by
+  sorry
+
+/-- `cells()` / `cells_mut()` of a view: the positions of all its cells, row-major, each exactly once -/
+theorem C10_cells_view (m : Mode) (v : VW) (n : Nat) (h : v.Inv n) :
+    ∃ it, v.rows m = .ok it ∧ (Flat.new it).WF v.numRows n ∧
+      (Flat.new it).abs v.numRows =
+        ((List.range v.numRows).map fun r => (List.range v.numCols).map fun c => v.pos c r).flatten ∧
+      ((Flat.new it).abs v.numRows).Nodup ∧ ((Flat.new it).abs v.numRows).length = v.numCols * v.numRows := by
+  sorry
+
 end Toodee
